@@ -545,6 +545,19 @@ pub fn c04_script(r: &mut Rng, index: u64, _tier: Tier) -> (CaseCfg, Vec<Step>) 
         }
         return (cfg, s);
     }
+    if index % 6 == 4 {
+        // more inbound QoS 2 exchanges open at once than the client's table holds: what lies within
+        // the window the client itself advertised in its CONNECT is surfaced, the rest refused
+        let cfg = CaseCfg { rx: 128, tx: 512, keepalive: 0, ..CaseCfg::default() };
+        let mut s = vec![connect_with(SpMode::Force(false), AckMode::Hold, vec![])];
+        let base = *r.pick(&[1u16, 300, 65528]);
+        for k in 0..*r.pick(&[9u16, 10, 13]) {
+            s.push(Step::Broker(BrokerAct::Send(SPacket::Publish { dup: false, qos: 2, retain: false, topic: "q2".into(), pid: Some(base.wrapping_add(k).max(1)), props: vec![], payload: vec![k as u8] })));
+            s.push(poll0());
+            s.push(poll0());
+        }
+        return (cfg, s);
+    }
     let cfg = CaseCfg { rx: 128, tx: 512, keepalive: 0, ..CaseCfg::default() };
     let n = *r.pick(&[8u16, 8, 8, 7, 3]);
     let base = *r.pick(&[1u16, 100, 65520]);
